@@ -251,7 +251,7 @@ impl Prop for C11 {
         "per seed: generated schemas (the engine group's schema generator: interfaces incl. diamonds, objects, inherited property pool, edges to any/own/ancestor types with parameters, list and single-valued roots) x 30 type-directed query trees each (the engine group's query generator, alternating its default and its wide settings: depth <= 4, plain/optional/fold/recurse edges, coercions, every filter operator with variable and tag operands incl. tags imported into nested folds, repeated imports of one tag, fold-count tags/outputs/filters, repeated property selections, explicit and defaulted edge parameters, deliberately bad @recurse). For every tree the real frontend ACCEPTS: (compile schema tree) [real IR vs toIR tree, text-equal], (spec-wf schema tree ir) [the decidable WF evaluated by the Lean driver on the real IR; implementation answer is the constant 1], (indexed ...) [IndexedQuery::try_from vs indexedOk], (outs ...) [IndexedQuery.outputs vs outputsOf]. For every tree it REJECTS: (accepts schema tree) [model must reject too]. A case is non-trivial (nt:<feature>) when the tree has a fold, nested fold, optional, recursion, coercion, a tag used from another vertex, an imported tag (also nested / duplicated / fold-count), or a variable used twice. Oracle on the implementation: panics, and IndexedQuery::try_from rejecting a freshly compiled query (the unwrap in frontend::parse)."
     }
     fn generate(&self, tier: Tier, rng: &mut Rng) -> Vec<Case> {
-        let n_schemas = if tier == Tier::Quick { 50 } else { 300 };
+        let n_schemas = if tier == Tier::Quick { 50 } else { 800 };
         let n_queries = 30;
         let mut out = vec![];
         let mut stats = Stats::default();
